@@ -76,10 +76,10 @@ POLICIES = ['random', 'random', 'starve_jobs', 'jobs_first', 'starve_ptq', 'resu
 
 
 def run_program(prog, scheduler='default', policy='random', seed=0, ops=None, dups=0, max_steps=400, evict=False,
-                declared=None, c20=None, ids='rand'):
+                declared=None, c20=None, ids='rand', prims=False):
     """ops: list of (at_step, op tuple factory) operator commands; dups: number of messages to re-deliver."""
     rnd = random.Random(seed)
-    w = world_mod.World(scheduler=scheduler, seed=seed, ids=ids)
+    w = world_mod.World(scheduler=scheduler, seed=seed, ids=ids, prims=prims)
     steps = []
     meta = dict(scheduler=scheduler, policy=policy, seed=seed, dups=dups, evict=evict, ids=ids,
                 mayPause=bool(ops) or bool(prog.flags.get('pause')), faulty=dups > 0)
@@ -110,6 +110,11 @@ def run_program(prog, scheduler='default', policy='random', seed=0, ops=None, du
                     dec = _copy.deepcopy(prog)
                     dec.subs = {k: v for k, v in dec.subs.items() if k in leafs}
                     w.define(dec.yaml('subs'), namespace=ns)
+        elif prog.flags.get('wb'):
+            # the program is one workbook; same-named standalone workflows exist as decoys (workbook-relative names win)
+            w.define_workbook(prog.yaml(), namespace=ns)
+            if prog.subs and prog.flags.get('wb_decoy', True):
+                w.define(prog.yaml('decoys'), namespace=ns)
         else:
             w.define(prog.yaml(), namespace=ns)
         pol = Policy(policy, rnd)
@@ -132,9 +137,13 @@ def run_program(prog, scheduler='default', policy='random', seed=0, ops=None, du
             obs['pend'] = w.pending_counts()
             obs['pend']['quiet'] = False
             steps.append({'ev': _clean_ev(ev), 'obs': obs})
+            if prims:
+                from harness import primitives
+                steps[-1]['prims'] = primitives.normalise(w.prims, ids)
             return obs, ids
 
-        ev = w.step(('op', 'start', prog.name, dict(prog.input), dict(prog.start_params(), __namespace=prog.flags.get('ns', ''))))
+        start_name = ('%s.%s' % (prog.flags['wb'], prog.name)) if prog.flags.get('wb') else prog.name
+        ev = w.step(('op', 'start', start_name, dict(prog.input), dict(prog.start_params(), __namespace=prog.flags.get('ns', ''))))
         root_id = ev.get('result')
         obs, ids = record(ev)
         n = 0
@@ -250,6 +259,15 @@ def _op_step(o, w, ids, root_id, obs):
         if op == 'stop':
             return ('op', 'stop', wid, o.get('state', 'ERROR'), o.get('msg', 'stopped by operator'))
         return ('op', op, wid)
+    if op == 'dup':
+        # redeliver an already delivered message of the given method (the pick-th one that concerns the given task, if any)
+        cands = [mid for mid, m in w.msgs.items() if m.method == o.get('method', 'start_task') and m.delivered > 0]
+        if o.get('task'):
+            tid = ids['tk'].get(o['task'])
+            cands = [mid for mid in cands if tid and tid in json.dumps(w.msgs[mid].kwargs, default=str)]
+        if not cands:
+            return None
+        return ('dup', cands[o.get('pick', 0) % len(cands)])
     if op == 'wait':
         # let virtual time pass up to the next due job (timers firing while the operator does nothing)
         return ('tick',) if w.next_due() is not None else None
